@@ -563,6 +563,7 @@ def c05(seed, n):
     evals = 0
     skipped = 0
     unenc = 0
+    bad_indent = 0
     for _ in range(n):
         calls, strict = vary_calls(rng, random_calls(rng))
         how = rng.randrange(2)
@@ -579,6 +580,34 @@ def c05(seed, n):
             return evals, {'error': 'building the tree raised %s: %s' % (
                 type(e).__name__, e), 'calls': repr(calls)[:1500]}
         evals += 1
+        if rng.random() < .06:
+            # an indentation no file can carry: the tree must either not
+            # serialise, or serialise to something that parses
+            secs = [x for x in [t] + t.changes if x.preamble]
+            if secs:
+                sec = rng.choice(secs)
+                sec.preamble_section.options['indent'] = rng.choice(
+                    [-3, -1, True])
+                try:
+                    bb = t.to_bytes()
+                except BaseDiffXError:
+                    bad_indent += 1
+                    continue
+                except Exception as e:  # noqa
+                    return evals, {'error': 'to_bytes with indent %r raised '
+                                   '%s' % (sec.preamble_indent,
+                                           type(e).__name__)}
+                try:
+                    DiffX.from_bytes(bb)
+                except Exception as e:  # noqa
+                    return evals, {
+                        'error': 'a tree with preamble indent %r serialises '
+                                 'without error but the result cannot be '
+                                 'parsed: %s: %s' % (
+                                     sec.preamble_section.options['indent'],
+                                     type(e).__name__, e),
+                        'calls': repr(calls)[:1500]}
+                continue
         before = snap(t)
         try:
             b = t.to_bytes()
@@ -631,7 +660,8 @@ def c05(seed, n):
                                              b[max(0, i - 40):i + 40]),
                            'calls': repr(calls)[:1500]}
     return evals, None, [], {'shape_rejected_by_writer': skipped,
-                             'not_encodable': unenc}
+                             'not_encodable': unenc,
+                             'bad_indent_rejected': bad_indent}
 
 
 def first_diff(a, b, path=''):
